@@ -232,6 +232,15 @@ class Program:
                         for tt, vv in zip(t.elts, n.value.elts):
                             if isinstance(tt, ast.Name):
                                 mi.assigns[tt.id] = vv
+                    elif isinstance(t, ast.Tuple) and all(isinstance(x, ast.Name) for x in t.elts):
+                        # a, b, c = range(3) and the like: fold the right-hand side and distribute it
+                        try:
+                            vals = list(self.fold(mi, n.value))
+                        except (ValueError, TypeError, AnalysisError):
+                            vals = None
+                        if vals is not None and len(vals) == len(t.elts) and all(isinstance(v, (int, str, bool, float, type(None))) for v in vals):
+                            for tt, vv in zip(t.elts, vals):
+                                mi.assigns[tt.id] = ast.Constant(value=vv)
             elif isinstance(n, ast.AnnAssign) and isinstance(n.target, ast.Name) and n.value is not None:
                 mi.assigns[n.target.id] = n.value
 
@@ -460,12 +469,13 @@ class Program:
         if isinstance(e, ast.Call):
             fn = e.func
             args = [f(a) for a in e.args]
+            kwargs = {k.arg: f(k.value) for k in e.keywords if k.arg is not None}
             if isinstance(fn, ast.Name):
                 pure = {"list": list, "tuple": tuple, "set": set, "dict": dict, "len": len, "sorted": sorted,
-                        "frozenset": frozenset, "str": str, "int": int, "enumerate": lambda x: list(enumerate(x)),
+                        "frozenset": frozenset, "str": str, "int": int, "enumerate": lambda *a, **k: list(enumerate(*a, **k)),
                         "zip": lambda *a: list(zip(*a)), "range": lambda *a: list(range(*a))}
                 if fn.id in pure:
-                    return pure[fn.id](*args)
+                    return pure[fn.id](*args, **kwargs)
                 if fn.id == "OrderedDict":
                     return dict(*args)
             if isinstance(fn, ast.Attribute):
